@@ -33,11 +33,11 @@ EXHAUSTIVE = {"quick": False, "thorough": False}
 CLAUSES = {
     "HTML-escaping yields text with no < > quote apostrophe and no & outside the entities it introduced": "escape_safe",
     "... and unescapes back to the input": "unescape_escape (every string, every table containing the five entities)",
-    "URL escaping and unescaping are inverse in both plus modes (and for the bytes-returning form)": "unquote_quote, unquote_quote_bytes, unquote_quote_str_bytes",
+    "URL escaping and unescaping are inverse in both plus modes (and for the bytes-returning form)": "unquote_quote (str form and str->bytes form), unquote_quote_bytes, quote_ascii",
     "JSON encoding never contains '</'": "json_no_close_tag (every string); tie only: json.dumps itself",
     "... and decodes to an equal value": "tie only: json_decode(json_encode(v)) == v on the implementation",
     "UTF-8 conversion helpers are mutually inverse on valid data and reject other types": "utf8_roundtrip, utf8_roundtrip_bytes, utf8_rejects_other",
-    "parsing a query string given as bytes (or their latin-1 decoding) preserves every byte of every name and value": "qs_bytes_preserved",
+    "parsing a query string given as bytes (or their latin-1 decoding) preserves every byte of every name and value": "qs_bytes_preserved, qs_bytes_preserved_default (parse level + grouped dict); Spec.group vs groupPairs: tie only",
 }
 PARALLEL = False   # sequential is faster here: ~10^4 cases/s in-process, fork+pickle costs more (measured 1.5 s vs 24 s)
 LEVEL_TEXT = "proof"
